@@ -16,6 +16,7 @@ mod pc15;
 mod pc16;
 mod pc19;
 mod pcrep;
+mod pcchan;
 
 fn main() {
     explore::install_panic_hook();
@@ -34,14 +35,14 @@ fn main() {
         "C03" => pcrep::run_c03(ctx),
         "C05" => pcrep::run_c05(ctx),
         "C14" => pc01::run_c14(ctx),
-        "C10" => pc10::run(ctx),
+        "C10" => { pc10::run(ctx); pcchan::run(ctx, "C10") }
         "C11" => pc11::run(ctx),
         "C17" => pc17::run(ctx),
         "C12" => pc12::run(ctx),
         "C15" => pc15::run(ctx),
-        "C16" => pc16::run(ctx),
+        "C16" => { pc16::run(ctx); pcchan::run(ctx, "C16") }
         "C18" => pc18::run(ctx),
-        "C19" => pc19::run(ctx),
+        "C19" => { pc19::run(ctx); pcchan::run(ctx, "C19") }
         _ => { eprintln!("unknown property {id}"); std::process::exit(2); }
     }
     ctx.finish_and_exit();
